@@ -151,7 +151,14 @@ type FuncSpec struct {
 	MaxPaths  int
 	Refines   []Refinement
 	ReturnHints []*Clause // facts (may mention locals) proved at each return and then assumed for the postconditions
+	CallHints []*CallHint // facts (may mention locals) proved wherever the function's own body calls the named function / method
 	refExpanded bool
+}
+
+// CallHint: "callhint Name [label] cond" - at every call of a function or method called Name in the body, cond holds.
+type CallHint struct {
+	Name string
+	C    *Clause
 }
 
 // Refinement: this function implements an interface method; its obligations are the interface method contract with the
@@ -730,7 +737,7 @@ type rawLine struct {
 }
 
 var topKeywords = map[string]bool{"func": true, "spec": true, "pred": true, "lemma": true, "ifacemethod": true, "wire": true}
-var clauseKeywords = map[string]bool{"assumes": true, "returnhint": true, "refines": true, "requires": true, "ensures": true, "panics_if": true, "panics_iff": true, "nopanic": true,
+var clauseKeywords = map[string]bool{"assumes": true, "returnhint": true, "callhint": true, "refines": true, "requires": true, "ensures": true, "panics_if": true, "panics_iff": true, "nopanic": true,
 	"assigns": true, "loop": true, "trusted": true, "inline": true, "fnparam": true, "property": true, "maxpaths": true,
 	"opaque": true, "unfold": true, "json": true, "gotypes": true}
 
@@ -976,6 +983,16 @@ func parseClauseInto(fs *FuncSpec, l rawLine) error {
 			return err
 		}
 		fs.ReturnHints = append(fs.ReturnHints, c)
+	case "callhint":
+		name := firstWord(body)
+		c, err := mk(kw, strings.TrimSpace(body[len(name):]))
+		if err != nil {
+			return err
+		}
+		if name == "" || strings.HasPrefix(name, "[") {
+			return fmt.Errorf("%s: callhint needs the name of the called function", l.src)
+		}
+		fs.CallHints = append(fs.CallHints, &CallHint{Name: name, C: c})
 	case "assumes":
 		c, err := mk("ensures", body)
 		if err != nil {
